@@ -303,7 +303,7 @@ func VerifC18retain() {
 			return
 		}
 		if ndSymbolic() {
-			verifStub.byBuf = append(verifStub.byBuf, verifBufClaims{buf: e.message.Payload, g1: g})
+			verifScript(e.message.Payload, g)
 		}
 		buf := ndCopyBytes(tok)
 		if ndSymbolic() {
